@@ -280,6 +280,22 @@ class Check(object):
         if hits:
             self.broke('forbidden constructs', '\n'.join(hits[:20]))
             good = False
+        if self.tier == 'thorough' and good:
+            # independent replay of the compiled proofs by the toolchain's re-checker
+            t0 = time.time()
+            try:
+                with _Lock():
+                    p = subprocess.run(['lake', 'env', 'leanchecker'] + list(targets), cwd=LEAN, stdout=subprocess.PIPE,
+                                       stderr=subprocess.STDOUT, timeout=3600)
+                ok2, out2 = p.returncode == 0, p.stdout.decode('utf-8', 'replace')
+            except subprocess.TimeoutExpired:
+                raise Infra('leanchecker timed out')
+            self.extra['leanchecker_s'] = round(time.time() - t0, 1)
+            self.checker_cmd += ' && lake env leanchecker ' + ' '.join(targets)
+            self.oblige('leanchecker replays ' + ' '.join(targets), ok2, out2[-300:] if not ok2 else 'ok')
+            if not ok2:
+                self.broke('leanchecker ' + ' '.join(targets), out2[-1500:])
+                good = False
         return good
 
     # ---- output
